@@ -106,3 +106,7 @@ fn parse_expires(s: &str) -> Option<time::Duration> {
     let x = s.parse::<u32>().ok().filter(|&x| x > 0)?;
     Some(time::Duration::new(i64::from(x), 0))
 }
+
+// verification hook (compiled only under `cargo kani`, see /verif/MANIFEST.json hooks)
+#[cfg(kani)]
+include!(concat!(env!("VERIF_KANI_INC"), "/s3s_sig_v4_presigned_url_v4.rs"));
